@@ -11,7 +11,7 @@ CHECKS = {
          "Same table and probe space as C01 (add-only, every registration order); the observed route and parameters must be in the set ref.Resolve admits, 404 exactly when that set is empty.",
          "The reference resolver is the trusted statement of the documented rules (DESIGN 3.6); bounded table size and path length.", "4/C02"),
  "C04": ("S", "explicit-state BFS over registration/removal histories on the real router (with and without WithTrace), four-view method-set oracle against the reference table in every state",
-         "Every history over the C04 alphabet up to depth 3 (quick) / 5 (thorough) on five patterns that split one another; in every reachable state the Allow header of OPTIONS and 405 responses as sent, Node().Methods(), Node().AllowHeader(), Routes() and OPTIONS * are compared with the model, including the initial state observed in a virgin process.",
+         "Every history over the C04 alphabet up to depth 4 (quick) / 5 (thorough) on five patterns that split one another; in every reachable state the Allow header of OPTIONS and 405 responses as sent, Node().Methods(), Node().AllowHeader(), Routes() and OPTIONS * are compared with the model, including the initial state observed in a virgin process.",
          "Bounded depth and pool; the OPTIONS/405 handlers are the harness's builder-made handlers which read AllowHeader() at request time, as README and examples/std do.", "4/C04"),
  "C05": ("SI", "explicit-state BFS over Handle/Remove/Clean histories with a hostile request alphabet in every state, plus exhaustive enumeration of all pattern strings up to a length bound through every pattern-taking entry point",
          "(a) every state of the lifecycle search (depth 3 quick / 4 thorough) probed with empty/unknown methods and hostile paths ('', '*', all byte strings over a 9-byte alphabet incl. NUL and non-UTF-8 up to length 2-3, edit-1 neighbours of witnesses, 32K/64K paths); groups behind every matcher kind with all Host strings over an 8-byte alphabet up to length 3 and malformed Accept values; (b) all 3.3M (quick, len<=6) / 39M (thorough, len<=7) pattern strings over a 12-byte syntax alphabet through CheckSyntax, URL, Router.URL, Handle on fresh and populated routers, then served.",
